@@ -447,6 +447,15 @@ func bvBin(op string, a, b *Term) *Term {
 		if na, nb, _, ok := narrowPair(a, b, 0); ok {
 			return ZExt(bvBin(op, na, nb), w)
 		}
+	case "bvsdiv", "bvsrem":
+		// both operands zero-extended: non-negative, so signed == unsigned
+		if na, nb, _, ok := narrowPair(a, b, 0); ok && !(b.Const && b.CV == 0) {
+			uop := "bvudiv"
+			if op == "bvsrem" {
+				uop = "bvurem"
+			}
+			return ZExt(bvBin(uop, na, nb), w)
+		}
 	case "bvmul":
 		if !(a.Const && b.Const) {
 			na, ka, ok1 := narrowOf(a)
